@@ -71,6 +71,68 @@ def ipf_line(pal, nw, ops):
     return "ipf %d %d %d %s" % (pal, nw, len(ops), " ".join("%d %d %d" % o for o in ops))
 
 
+def ipfx_line(pal, nb, ns, ops):
+    ops = list(ops) + probes(nb + ns)
+    return "ipfx %d %d %d %d %s" % (pal, nb, ns, len(ops), " ".join("%d %d %d" % o for o in ops))
+
+
+def mixed_alphabet(nb, ns, pal):
+    """operations on nb full-capacity wrappers followed by ns PERSISTENT capacity-16 wrappers that the types allow (the
+    harness and the driver skip the others by the same rule): a big destination with a small source goes through the
+    converting constructors of inplace_function"""
+    n = nb + ns
+    small = lambda i: i >= nb
+    fits = {0: [0], 1: [0], 2: [0], 3: [0, 2]}[pal]
+    ops = []
+    for w in range(n):
+        for t in range(3):
+            if not small(w) or t in fits:
+                ops += [(0, w, t), (12, w, t)]
+        ops += [(5, w, 0), (13, w, 0), (15, w, 0), (8, w, 7)]
+        for v in range(n):
+            if not (small(w) and not small(v)):
+                ops += [(1, w, v), (2, w, v), (3, w, v), (4, w, v)]
+            if small(w) == small(v):
+                ops += [(6, w, v), (7, w, v)]
+    return ops
+
+
+def gen_ipf_mixed(tier, rng):
+    out = []
+    quick = tier == "quick"
+    # one big + one small wrapper: exhaustive to depth 2 (thorough: 3) over everything the types allow, all palettes
+    for pal in range(4):
+        alpha = mixed_alphabet(1, 1, pal)
+        for d in range(1, 3 if quick else 4):
+            for h in itertools.product(alpha, repeat=d):
+                out.append(ipfx_line(pal, 1, 1, h))
+    # the conversions proper in the middle of a history: fill the small wrapper, convert (copy / move, construction /
+    # assignment), then any operation, then any second conversion
+    for pal in range(4):
+        alpha = mixed_alphabet(1, 1, pal)
+        conv = [(c, 0, 1) for c in (1, 2, 3, 4)]
+        for c1 in conv:
+            for o in alpha:
+                for c2 in conv:
+                    out.append(ipfx_line(pal, 1, 1, [(0, 1, 0), c1, o, c2]))
+                    out.append(ipfx_line(pal, 1, 1, [(0, 1, 0), (8, 1, 5), c1, o, c2]))
+    # random, deeper, 1..2 big and 1..2 small wrappers, ill-typed and out-of-range operations now and then
+    for _ in range(3000 if quick else 40000):
+        nb = rng.choice([1, 1, 2])
+        ns = rng.choice([1, 1, 2])
+        pal = rng.randrange(4)
+        alpha = mixed_alphabet(nb, ns, pal)
+        depth = rng.randint(3, 12)
+        h = [rng.choice(alpha) for _ in range(depth)]
+        if rng.random() < 0.15:
+            i = rng.randrange(len(h))
+            c = rng.choice([0, 1, 2, 3, 4, 6, 7, 10, 11, 12])
+            h[i] = (c, rng.randrange(nb + ns + 1), rng.randrange(3))   # possibly ill-typed / out of range: skipped by all legs
+        h = [(c, a, rng.randint(0, 999)) if c == 8 else (c, a, b) for (c, a, b) in h]
+        out.append(ipfx_line(pal, nb, ns, h))
+    return out
+
+
 def gen_ipf(tier, rng):
     out = ["ipfsizes 48"]   # 28 trivially copyable capture sizes (6..32 bytes) + 20 non-trivial ones (16..32 bytes)
     quick = tier == "quick"
@@ -189,8 +251,8 @@ def gen_tables(tier, rng):
             for c3 in R4:
                 out.append(f"catx 6 {c1} 1 {c2} 2 {c3} 1")
     for dk in (0, 2):
-        for sk in (0, 2):
-            for sc in range(3):
+        for sk in range(5):
+            for sc in R4:
                 out.append(f"passign {dk} {sk} {sc}")
     # results come back unchanged: callable result kinds A, A&, A const&, A&&, A const&& through every wrapper
     for rk in range(5):
@@ -202,6 +264,8 @@ def gen_tables(tier, rng):
                 out.append(f"retsig 1 {Rk} {rk}")
     for ac in R4:
         out.append(f"refwf {ac}")
+        for q in R6:
+            out.append(f"frefwf {q} {ac}")
     # two bound / two call arguments
     for a1 in R4:
         for a2 in R4:
@@ -310,6 +374,7 @@ def gen_values(tier, rng):
         out.append("teq %s %s" % (zl(a), zl(b)))
         b = [rng.randint(-50, 50) for _ in range(n)]
         out.append("tswap %s %s" % (zl(a), zl(b)))
+        out.append("tswapref %d %d %d %d" % tuple(rng.randint(-50, 50) for _ in range(4)))
         out.append("tget %s" % zl(a))
         out.append("tinit %d" % rng.randint(-60, 60))
         out.append("tapply %s" % zl(a))
@@ -335,6 +400,7 @@ def gen(tier, rng):
     out += gen_tables(tier, rng)
     out += gen_values(tier, rng)
     out += gen_ipf(tier, rng)
+    out += gen_ipf_mixed(tier, rng)
     return out
 
 
